@@ -76,6 +76,9 @@ func sameInst(g goom.Inst, r ref.Inst) (bool, string) {
 	if g.Op.String() != r.Op.String() {
 		return false, fmt.Sprintf("op goom=%s ref=%s", g.Op, r.Op)
 	}
+	if g.Opcode != r.Opcode {
+		return false, fmt.Sprintf("opcode word goom=%#08x ref=%#08x", g.Opcode, r.Opcode)
+	}
 	if g.PCRel != r.PCRel || g.PCRelOff != r.PCRelOff {
 		return false, fmt.Sprintf("pcrel goom=%d@%d ref=%d@%d", g.PCRel, g.PCRelOff, r.PCRel, r.PCRelOff)
 	}
